@@ -33,10 +33,12 @@ def _probes(alpha):
 def _jobs(tier):
     alpha = _alphabet()
     jobs = []
+    deliveries = ("whole", "segment") if tier == "quick" else ("whole", "segment", "byte")
     for stack in STACKS:
         for dn in (True, False):
-            for i1 in range(len(alpha)):
-                jobs.append((stack, dn, i1, tier))
+            for dl in deliveries:
+                for i1 in range(len(alpha)):
+                    jobs.append((stack, dn, i1, tier, dl))
     return jobs
 
 
@@ -65,7 +67,7 @@ def _stack_class(stack):
 
 
 def _worker(job, chk):
-    stack, dn, i1, tier = job
+    stack, dn, i1, tier, delivery = job
     alpha = _alphabet()
     cls = _stack_class(stack)
     has = lambda op: hasattr(cls, op.name)  # noqa
@@ -74,11 +76,11 @@ def _worker(job, chk):
     menu = simnet.MENU_CONN
     for seq in _seqs(stack, i1, tier, alpha, has):
         b = bound
-        if tier == "thorough" and len(seq) == 3:
-            b = 1  # three calls: one deviation; two calls: two deviations
+        if tier == "thorough" and (len(seq) == 3 or delivery == "byte"):
+            b = 1  # three calls / byte-wise delivery: one deviation; otherwise two
 
         def run(ch, seq=seq):
-            return connoracle.run_sequence(ch, stack, dn, seq, menu, trunc)
+            return connoracle.run_sequence(ch, stack, dn, seq, menu, trunc, delivery=delivery)
 
         def on_exec(ch, res, seq=seq):
             net, obj, rec = res
@@ -86,21 +88,22 @@ def _worker(job, chk):
             if ch.labels:
                 chk.outcome((stack, tuple(o.name for o in seq), connoracle.devsig(ch),
                              connoracle.result_class(rec)))
+                if i1 == 6 and dn and len(ch.labels) == bound and len(chk.samples) < 1:
+                    chk.sample({"stack": stack, "default_noreply": dn, "delivery": delivery,
+                                "sequence": [o.label for o in seq], "fault_plan": ch.plan(),
+                                "results": [(r["kind"], connoracle.short(r["value"])) for r in rec]})
             bad = connoracle.judge(ch, net, obj, rec, stack, dn, seq)
             if bad:
-                _report(chk, bad, ch, stack, dn, seq, run, net)
+                _report(chk, bad, ch, stack, dn, delivery, seq, run, net)
 
         n = explore.explore(run, b, on_exec)
         chk.count("sequences")
         chk.maximum("max_points_per_execution", 0)
-    if i1 == 0 and dn:
-        chk.sample({"stack": stack, "default_noreply": dn,
-                    "sequence": [o.label for o in seq], "bound": bound})
 
 
-def _report(chk, bad, ch, stack, dn, seq, run, net):
+def _report(chk, bad, ch, stack, dn, delivery, seq, run, net):
     clause, call, text = bad[0]
-    sig = f"{clause}|{stack}|{seq[call-1].name if call else '?'}|{connoracle.devsig(ch)}"
+    sig = f"{clause}|{stack}|{seq[call-1].name if call else '?'}|{connoracle.devsig(ch)}|{delivery}"
     if sig not in chk.violations:
         # determinism: the same choice sequence must give the same event log twice
         ch2, res2 = explore.replay(run, ch.choices)
@@ -108,7 +111,7 @@ def _report(chk, bad, ch, stack, dn, seq, run, net):
         if res2[0].events != net.events or res3[0].events != net.events:
             raise runner.HarnessError("harness nondeterminism: same choices, different event logs")
     chk.violation(sig, text, {
-        "stack": stack, "default_noreply": dn, "sequence": [o.label for o in seq],
+        "stack": stack, "default_noreply": dn, "delivery": delivery, "sequence": [o.label for o in seq],
         "choices": list(ch.choices), "plan": ch.plan(), "all": [b[2] for b in bad],
     })
 
@@ -124,8 +127,6 @@ def run(chk):
     chk.info["deviation_bound_completed"] = bound
     chk.info["stacks"] = list(STACKS)
     runner.parallel(chk, _worker, _jobs(chk.tier), chunksize=1)
-    chk.sample({"note": "a fault plan is a list of (choice point index, kind, deviation)",
-                "example_plan": [[3, "recv", "timeout"]]})
 
 
 def replay(detail):
@@ -134,7 +135,8 @@ def replay(detail):
     stack, dn = detail["stack"], detail["default_noreply"]
 
     def run(ch):
-        return connoracle.run_sequence(ch, stack, dn, seq, simnet.MENU_CONN, "quick")
+        return connoracle.run_sequence(ch, stack, dn, seq, simnet.MENU_CONN, "quick",
+                                       delivery=detail.get("delivery", "whole"))
 
     ch, (net, obj, rec) = explore.replay(run, detail["choices"])
     for ev in net.events:
